@@ -450,6 +450,14 @@ def check(pid, tier, seed):
     inc_hash = include_hash()
     gen_info = {}
     if gen:
+        if os.path.realpath(REPO) != "/repo":
+            # a run against a scratch copy of the repository must not rewrite the generated model files of the
+            # shared Lean project (other checks build from them): it gets a private copy of the project
+            global LEAN, DRIVER
+            alt = os.path.join(CACHE, "alt-lean-" + pid)
+            sh(["rsync", "-a", "--delete", os.path.join(ROOT, "lean") + "/", alt + "/"], timeout=1200)
+            LEAN = alt
+            DRIVER = os.path.join(LEAN, ".lake", "build", "bin", "cnl_driver")
         gen_info = gen(dict(repo=REPO, lean=LEAN, cache=CACHE, inc_hash=inc_hash, compile_tu=compile_tu, run_tu=run_tu)) or {}
     ok, out = lake_build(targets)
     proof_broken = None
